@@ -75,21 +75,38 @@ pub trait ZRes: Resource + Sized {
     fn val(&self) -> u32;
 }
 
-/// Type-erased access to one concrete resource type.
+/// Type-erased access to one resource cell: a concrete resource type plus a dynamic id.  `dynid` 0 is
+/// the cell the static Read/Write family addresses; `dynid` != 0 ("D3#1") is a dynamic-id SIBLING of
+/// the same Rust type (inserted with `insert_by_id`), which no static member may ever touch.
+#[derive(Clone)]
 pub struct Slot {
     pub name: &'static str,
     pub idx: usize,
     pub has_default: bool,
-    pub id: fn() -> ResourceId,
-    pub insert: fn(&mut World, u32),
-    pub get: fn(&World) -> Option<u32>,
+    pub dynid: u64,
+    pub id: fn(u64) -> ResourceId,
+    pub insert: fn(&mut World, u64, u32),
+    pub get: fn(&World, u64) -> Option<u32>,
     pub tyname: fn() -> &'static str,
 }
 
 impl Slot {
+    pub fn rid(&self) -> ResourceId {
+        (self.id)(self.dynid)
+    }
+    pub fn put(&self, w: &mut World, v: u32) {
+        (self.insert)(w, self.dynid, v)
+    }
+    pub fn value(&self, w: &World) -> Option<u32> {
+        (self.get)(w, self.dynid)
+    }
+    /// the cell addressed by the static accessors
+    pub fn is_static(&self) -> bool {
+        self.dynid == 0
+    }
     /// slot of any resource type (used for the same-named local types of the twin cases)
     pub fn of<T: ZRes>(name: &'static str, has_default: bool) -> &'static Slot {
-        Box::leak(Box::new(Slot { name, idx: T::IDX, has_default, id: rid::<T>, insert: ins::<T>, get: get::<T>, tyname: tyname::<T> }))
+        Box::leak(Box::new(Slot { name, idx: T::IDX, has_default, dynid: 0, id: rid::<T>, insert: ins::<T>, get: get::<T>, tyname: tyname::<T> }))
     }
 }
 
@@ -196,16 +213,20 @@ macro_rules! zoo_twin {
 
 pub type TwinFn = fn(&mut dyn FnMut(&Ops, Vec<&'static Slot>));
 
-fn rid<T: ZRes>() -> ResourceId {
-    ResourceId::new::<T>()
+fn rid<T: ZRes>(dynid: u64) -> ResourceId {
+    ResourceId::new_with_dynamic_id::<T>(dynid)
 }
-fn ins<T: ZRes>(w: &mut World, v: u32) {
-    w.insert(T::mk(v));
+fn ins<T: ZRes>(w: &mut World, dynid: u64, v: u32) {
+    if dynid == 0 {
+        w.insert(T::mk(v));
+    } else {
+        w.insert_by_id(ResourceId::new_with_dynamic_id::<T>(dynid), T::mk(v));
+    }
 }
-fn get<T: ZRes>(w: &World) -> Option<u32> {
+fn get<T: ZRes>(w: &World, dynid: u64) -> Option<u32> {
     // read past the borrow flag (quiescent point, single thread): a cell that the code under test
     // left borrowed must not make the harness panic
-    unsafe { w.try_fetch_internal(ResourceId::new::<T>()) }
+    unsafe { w.try_fetch_internal(ResourceId::new_with_dynamic_id::<T>(dynid)) }
         .and_then(|c| unsafe { (**c.as_ptr()).downcast_ref::<T>() })
         .map(|x| x.val())
 }
@@ -230,9 +251,9 @@ macro_rules! zres {
             impl ZRes for $n { const IDX: usize = $i; fn mk(v: u32) -> Self { $n(v) } fn val(&self) -> u32 { self.0 } }
             impl<'b> Hrtb<'b> for $n {}
         )*
-        pub static D_SLOTS: [Slot; NCONC] = [ $( Slot { name: stringify!($d), idx: $i, has_default: true,
+        pub static D_SLOTS: [Slot; NCONC] = [ $( Slot { name: stringify!($d), idx: $i, has_default: true, dynid: 0,
             id: rid::<$d>, insert: ins::<$d>, get: get::<$d>, tyname: tyname::<$d> } ),* ];
-        pub static N_SLOTS: [Slot; NCONC] = [ $( Slot { name: stringify!($n), idx: $i, has_default: false,
+        pub static N_SLOTS: [Slot; NCONC] = [ $( Slot { name: stringify!($n), idx: $i, has_default: false, dynid: 0,
             id: rid::<$n>, insert: ins::<$n>, get: get::<$n>, tyname: tyname::<$n> } ),* ];
     };
 }
@@ -244,8 +265,20 @@ zres! {
     21 => D21 N21, 22 => D22 N22, 23 => D23 N23, 24 => D24 N24, 25 => D25 N25,
 }
 
+/// "D3" -> the static cell of D3; "D3#2" -> its sibling with dynamic id 2
 pub fn slot_by_name(name: &str) -> Option<&'static Slot> {
-    D_SLOTS.iter().chain(N_SLOTS.iter()).find(|s| s.name == name)
+    let (base, dynid) = match name.split_once('#') {
+        Some((b, n)) => (b, n.parse::<u64>().ok()?),
+        None => (name, 0),
+    };
+    let s = D_SLOTS.iter().chain(N_SLOTS.iter()).find(|s| s.name == base)?;
+    if dynid == 0 {
+        Some(s)
+    } else {
+        let mut c = s.clone();
+        c.dynid = dynid;
+        Some(Box::leak(Box::new(c)))
+    }
 }
 
 // ------------------------------------------------------------------ per-case operations
@@ -511,7 +544,7 @@ pub struct Stats {
 // ------------------------------------------------------------------ driver
 
 fn abstract_of(slots: &[&'static Slot], id: &ResourceId) -> u32 {
-    slots.iter().position(|s| (s.id)() == *id).map(|p| p as u32 + 1).unwrap_or(0)
+    slots.iter().position(|s| s.rid() == *id).map(|p| p as u32 + 1).unwrap_or(0)
 }
 
 fn abstract_list(slots: &[&'static Slot], v: &[ResourceId]) -> Vec<u32> {
@@ -538,7 +571,7 @@ fn classify_panic(slots: &[&'static Slot], msg: &str) -> (&'static str, u32) {
         "other"
     };
     let mut res = 0;
-    for (i, s) in slots.iter().enumerate() {
+    for (i, s) in slots.iter().enumerate().filter(|(_, s)| s.is_static()) {
         let full = (s.tyname)();
         let hit = match kind {
             "missing" => msg.contains(&format!("`{}`", full)),
@@ -556,14 +589,14 @@ fn mk_world(slots: &[&'static Slot], vals: &[u32]) -> World {
     let mut w = World::empty();
     for (s, v) in slots.iter().zip(vals) {
         if *v != 0 {
-            (s.insert)(&mut w, *v);
+            s.put(&mut w, *v);
         }
     }
     w
 }
 
 fn snapshot(slots: &[&'static Slot], w: &World) -> Vec<u32> {
-    slots.iter().map(|s| (s.get)(w).unwrap_or(0)).collect()
+    slots.iter().map(|s| s.value(w).unwrap_or(0)).collect()
 }
 
 const FETCH_VIA: [&str; 4] = ["fetch", "system_data", "dynamic", "run_now"];
@@ -651,7 +684,7 @@ fn do_fetch(ops: &Ops, slots: &[&'static Slot], ids: &[ResourceId], present: &[b
 /// concrete indices of `D` types -> abstract resources of the case (0: not a resource of the case)
 fn abstract_of_default_types(slots: &[&'static Slot], log: &[usize]) -> Vec<u32> {
     log.iter()
-        .map(|c| slots.iter().position(|s| s.has_default && s.idx == *c).map(|p| p as u32 + 1).unwrap_or(0))
+        .map(|c| slots.iter().position(|s| s.has_default && s.is_static() && s.idx == *c).map(|p| p as u32 + 1).unwrap_or(0))
         .collect()
 }
 
@@ -707,7 +740,7 @@ pub fn run_case(ops: &Ops, d: &CaseDesc, rng: &mut StdRng, ev: &mut Vec<Value>, 
 /// (queried after every other type of the process has been used, in another order).
 pub fn run_case_with(ops: &Ops, d: &CaseDesc, slots: Vec<&'static Slot>, rng: &mut StdRng, ev: &mut Vec<Value>, st: &mut Stats, pass: u32) {
     assert_eq!(slots.len(), d.nres);
-    let ids: Vec<ResourceId> = slots.iter().map(|s| (s.id)()).collect();
+    let ids: Vec<ResourceId> = slots.iter().map(|s| s.rid()).collect();
     let dflt: Vec<u32> = slots.iter().map(|s| DEFAULT_BASE + s.idx as u32).collect();
     let n0 = ev.len();
     ev.push(json!({"ev":"reset","case":d.id,"origin":d.origin,"ty":d.ty,"shape":d.shape,"nres":d.nres,"dflt":dflt,
